@@ -203,7 +203,7 @@ func (s *c14TotpSys) Reset() {
 }
 func (s *c14TotpSys) Close() { s.w.Close() }
 func (s *c14TotpSys) Ops() []string {
-	return []string{"guess(wrong)", "guess(right)", "fail5", "tick(1s)", "tick(2s)", "tick(31s)", "tick(1h)", "tick(24h)"}
+	return []string{"guess(wrong)", "guess(right)", "fail5", "fail4", "tick(1s)", "tick(2s)", "tick(31s)", "tick(1h)", "tick(24h)", "cleanup-pass"}
 }
 func (s *c14TotpSys) Canon() string {
 	st := s.w.state
@@ -238,10 +238,16 @@ func minInt64(a, b int64) int64 {
 }
 
 func (s *c14TotpSys) Apply(op string) (string, string, string) {
-	if op == "fail5" {
-		// five wrong guesses two seconds apart, each judged like a single one
+	if op == "cleanup-pass" {
+		// one pass of the real background clean-up loop (verifgen turns its sleep into
+		// a return); the statement gives it no say over lock-outs: no model change
+		s.w.state.performStateCleanup(30)
+		return "swept", "", ""
+	}
+	if op == "fail5" || op == "fail4" {
+		// five (four) wrong guesses two seconds apart, each judged like a single one
 		obs := ""
-		for i := 0; i < 5; i++ {
+		for i := 0; i < int(op[4]-'0'); i++ {
 			vclock.Advance(2 * time.Second)
 			o, k, w := s.Apply("guess(wrong)")
 			obs = o
@@ -249,7 +255,7 @@ func (s *c14TotpSys) Apply(op string) (string, string, string) {
 				return o, k, w
 			}
 		}
-		return "fail5:" + obs, "", ""
+		return op + ":" + obs, "", ""
 	}
 	if strings.HasPrefix(op, "tick") {
 		var d time.Duration
@@ -324,6 +330,14 @@ func (s *c14TotpSys) Apply(op string) (string, string, string) {
 		st.totpLocalTateLimitMutex.Lock()
 		r := st.totpLocalRateLimit["alice"]
 		st.totpLocalTateLimitMutex.Unlock()
+		if !r.lastFailTime.Equal(now) && r.lockoutExpirationTime.After(now) {
+			// the server did not even evaluate this guess: a lock-out it started earlier
+			// (it counts failures over 24 hours, not only those within a minute) is still
+			// running.  Stricter than the statement; what remains of it is not a new,
+			// shorter lock-out.
+			s.lockUntil = r.lockoutExpirationTime
+			return obs + " (earlier lock-out still running)", "", ""
+		}
 		if real := r.lockoutExpirationTime.Sub(now); real > 0 {
 			if real < s.lastLockLen {
 				return obs, "C14|totp-lockout-not-escalating|validateUserTOTP", fmt.Sprintf("lock-out after round %d lasts %v, shorter than the previous %v", n/5, real, s.lastLockLen)
@@ -397,7 +411,7 @@ func init() {
 	vfRegister(&vfeng.Check{
 		ID:    "C14",
 		Level: "model_checking",
-		Rule:  "(c) configuration files written by the repository's generator with burst/rate set to (20,1) (12,2) (150,20) (10,1), loaded with the real loadVerifyConfigFile: exactly `burst` of burst+12 simultaneous guesses over both entry points reach the backend, the rest get 429, and 3 s later exactly 3 x rate more; (a) BFS with canonical-state deduplication (state = token-bucket level) over {attempt via login form for 3 users right/wrong, attempt via basic-auth on EVERY route found to reach the password backend (probed with a counting backend), tick 0/400 ms/1 s/10 s} for burst in {10,12} x rate in {1,2}/s, depth 7 (thorough 9) with a five-attempt macro operation so that draining a burst of 10-12 fits the bound, against a reference token bucket: backend invocations <= burst + rate x elapsed at every prefix, an attempt with an empty bucket is answered 429 without lookup, both entry points share the bucket; (b) BFS over {wrong guess, right guess, tick 1 s/2 s/31 s/1 h/24 h} on the real TOTP verification: no evaluation within 2 s of the previous one, 5 consecutive evaluated failures within a minute start a lock-out (> 0, not shrinking from round to round)",
+		Rule:  "(c) configuration files written by the repository's generator with burst/rate set to (20,1) (12,2) (150,20) (10,1), loaded with the real loadVerifyConfigFile: exactly `burst` of burst+12 simultaneous guesses over both entry points reach the backend, the rest get 429, and 3 s later exactly 3 x rate more; (a) BFS with canonical-state deduplication (state = token-bucket level) over {attempt via login form for 3 users right/wrong, attempt via basic-auth on EVERY route found to reach the password backend (probed with a counting backend), tick 0/400 ms/1 s/10 s} for burst in {10,12} x rate in {1,2}/s, depth 7 (thorough 9) with a five-attempt macro operation so that draining a burst of 10-12 fits the bound, against a reference token bucket: backend invocations <= burst + rate x elapsed at every prefix, an attempt with an empty bucket is answered 429 without lookup, both entry points share the bucket; (b) BFS over {wrong guess, right guess, four / five wrong guesses 2 s apart, tick 1 s/2 s/31 s/1 h/24 h, one pass of the real background clean-up loop} on the real TOTP verification: no evaluation within 2 s of the previous one, 5 consecutive evaluated failures within a minute start a lock-out (> 0, not shrinking from round to round)",
 		Assumptions: []string{"the limiter's clock (golang.org/x/time/rate) is virtualised by the same AST rewrite", "the TOTP lock-out oracle is phrased on the statement: failures spread over more than a minute only assert the 2-second rule"},
 		Bounds: func(tier string) map[string]interface{} {
 			return map[string]interface{}{"password_depth": map[string]int{"quick": 7, "thorough": 9}[tier], "totp_depth": map[string]int{"quick": 7, "thorough": 9}[tier], "macro_ops": "burst5 = five immediate attempts, fail5 = five wrong guesses 2 s apart (each step judged individually)"}
